@@ -191,7 +191,7 @@ impl Prop for C14 {
         .boxed()
     }
     fn cases(&self, tier: Tier, _b: &str) -> u32 {
-        if tier == Tier::Quick { 1_000 } else { 12_000 }
+        if tier == Tier::Quick { 4_000 } else { 24_000 }
     }
     fn assumptions(&self) -> Vec<String> {
         vec!["retained memory = bytes requested from the global allocator (Layout::size) and still live after construction; allocator-internal fragmentation is not counted".into(),
@@ -288,7 +288,7 @@ impl Prop for C15 {
             .boxed()
     }
     fn cases(&self, tier: Tier, _b: &str) -> u32 {
-        if tier == Tier::Quick { 800 } else { 8_000 }
+        if tier == Tier::Quick { 3_000 } else { 16_000 }
     }
     fn assumptions(&self) -> Vec<String> {
         vec!["level data is not observable through the public API: it is bounded through the retained heap minus explicit allowances (relative rank/select overhead as in C14, K bytes per level, table allowance T = 64*(max symbol+1) + 4096 bytes)".into()]
@@ -416,7 +416,7 @@ impl Prop for C16 {
             .boxed()
     }
     fn cases(&self, tier: Tier, _b: &str) -> u32 {
-        if tier == Tier::Quick { 2_400 } else { 30_000 }
+        if tier == Tier::Quick { 8_000 } else { 60_000 }
     }
     fn assumptions(&self) -> Vec<String> {
         vec!["retained memory = live bytes requested from the global allocator + size_of_val of the value".into(),
